@@ -594,13 +594,13 @@ class kMinPathError(pathmodel.AbstractPathModelDAG):
             #   * edge_error_scale_u_v 
             #   <= sum(self.gamma_vars[(u, v, i)] for i in range(self.k))
             self.solver.add_constraint(
-                (f_u_v - self.solver.quicksum(self.solution_weights_superset[i] * self.edge_vars[(u, v, i)] for i in range(self.k))) 
+                (f_u_v - self.solver.quicksum(float(self.solution_weights_superset[i]) * self.edge_vars[(u, v, i)] for i in range(self.k))) 
                 * edge_error_scaling_u_v
                 <= self.solver.quicksum(self.gamma_vars[(u, v, i)] for i in range(self.k)),
                 name=f"9aa_u={u}_v={v}_i={i}",
             )
             self.solver.add_constraint(
-                (f_u_v - self.solver.quicksum(self.solution_weights_superset[i] * self.edge_vars[(u, v, i)] for i in range(self.k))) 
+                (f_u_v - self.solver.quicksum(float(self.solution_weights_superset[i]) * self.edge_vars[(u, v, i)] for i in range(self.k))) 
                 * edge_error_scaling_u_v
                 >= -self.solver.quicksum(self.gamma_vars[(u, v, i)] for i in range(self.k)),
                 name=f"9ab_u={u}_v={v}_i={i}",
